@@ -43,7 +43,7 @@ func RepoTestTraces(env *core.Env) (byN map[int][][]Event, total, skipped int, n
 		}
 		<-done
 	}
-	files, _ := filepath.Glob(filepath.Join(dir, "sched-*.ndjson"))
+	files, _ := filepath.Glob(filepath.Join(dir, "trace-*.ndjson"))
 	if len(files) == 0 {
 		return byN, 0, 0, "the repository's tests left no trace (" + lastLine(string(out)) + ")"
 	}
